@@ -53,10 +53,10 @@ add("C18", W, "exploration", "deterministic simulation: histories that reach and
     "Multiplicities adjacent to 2^32-1 and small log max_count make ceilings reachable; around every add/merge no count-min estimate may decrease (so a ceiling value stays), a heavy-hitter key alone in its cells equals min(truth, 2^32-1); ctor events draw (max_count, num_reserved) over the whole range: the constructor must raise ValueError or decode its maximum counter to max_count within 1e-6 relative.",
     "1e-6 relative tolerance for 'decodes to max_count'.", "DESIGN.md §4 C18")
 add("C08", P, "exploration", "deterministic simulation of the real parallel_add: would-be processes as baton-passing threads under a seeded scheduler (7 personalities), simulated queues/processes/clock; sequential-model oracle",
-    "The unmodified helpers.parallel_add (filler, logger, n workers, merge rounds, shared-memory attach, monitor loop, __del__ clean-up) runs in one interpreter; the scheduler decides who proceeds at every queue/process/sleep operation; worker counts 1..9, all sketch subsets, list and generator items, simulated processing delays. At return: result order/classes, HLL registers == sequential, n_added/n_records exact, C01/C03/C04 bounds w.r.t. the whole stream, every item exactly once, no task left, no segment leaked.",
+    "The unmodified helpers.parallel_add (filler, logger, n workers, merge rounds, shared-memory attach, monitor loop, __del__ clean-up) runs in one interpreter; the scheduler decides who proceeds at every queue/process/sleep operation and between source lines of helpers.py (sys.monitoring LINE events), and may stall a pre-empted process for simulated seconds; worker counts 1..9, all sketch subsets, list and generator items, arbitrary picklable item objects, callbacks returning python/numpy ints, simulated processing delays. At return: result order/classes, HLL registers == sequential, n_added/n_records exact, C01/C03/C04 bounds w.r.t. the whole stream, every item exactly once, no task left, no segment leaked. One real spawned parallel_add (3 workers, all sketches) runs beside the quick batch as a conformance anchor for the process stub; 5 in the thorough tier.",
     "SimContext models spawn pickling, bounded FIFO queues, exit codes; feeder threads/pipes are not modelled.", "DESIGN.md §4 C08")
 add("C19", P, "exploration", "deterministic simulation of parallel_add with fault plans: callback raises before/mid/after, worker dies at item/take/pill, under seeded schedules; containment and termination oracles",
-    "Fault plans over the same simulated parallel_add: any subset of <= 5 items raises (before/mid/after its updates) -> must return, contain every other item's full contribution (lower bounds), n_records counts successful items only; one worker dies (inside callback, after taking its k-th item, at the poison pill) -> parallel_add must terminate with an exception; returning a result or hanging (deadlock/livelock detection with step and simulated-time caps) is the violation.",
+    "Fault plans over the same simulated parallel_add (statement-level pre-emption and stalls included): any subset of <= 5 items raises one of 27 exception types (before/mid/after its updates) -> must return, contain every other item's full contribution (lower bounds), n_records counts successful items only; one worker dies with an os._exit-like code or by signal (-9/-15/-11) inside a callback, after taking its k-th item, or at the poison pill -> parallel_add must terminate with an exception; returning a result or hanging (deadlock / livelock detection with step and simulated-time caps) is the violation. Two real spawned runs (callback raising; worker os._exit(7)) anchor the stub in the quick tier, three in the thorough tier.",
     "Worker death is modelled as a BaseException with non-zero exit code (stack unwinds, unlike os._exit).", "DESIGN.md §4 C19")
 add("C20", D, "fault_enumeration", "fault enumeration: every crash offset (strict prefix) of every saved file through every loader route",
     "Exhaustive over the stated fault space: for each of the five classes x shapes x contents (incl. keys containing zip signatures) every strict prefix 0..len-1 of the bytes save() wrote is put on disk and offered to the class loader and (count-min) the module-level load, shared_memory False and sampled True: each must raise; the complete file must load to the saved sketch.",
@@ -101,7 +101,7 @@ def main():
         ],
         "checks": checks,
         "not_applicable": [{"property_id": k, "reason": v} for k, v in sorted(NA.items())],
-        "notes": "Technique family: deterministic simulation with fault injection. One entry point ./check <ID>; VERIF_SEED selects the batch; exit 2 = harness error (never a verdict).",
+        "notes": "Technique family: deterministic simulation with fault injection. One entry point ./check <ID>; VERIF_SEED selects the batch; exit 2 = harness error (never a verdict). Every 12th run of a W batch is a threshold run sized around a constant harvested from the tree under test (DESIGN.md section 9). Every check re-executes 2% of its runs in the parent and compares digests, and fails (exit 2) when a required reach probe stays at zero.",
     }
     with open(os.path.join(HERE, "MANIFEST.json"), "w") as f:
         json.dump(m, f, indent=1)
